@@ -165,6 +165,20 @@ CLAIMED["C03"] = ("Proof of the comparison kernel of ygot.diff (Diff / DiffWithA
     "Not covered: that the leaf maps equal the trees' leaf sets (findSetLeaves), that applying the notifications to a gives b (UnmarshalNotifications, "
     "SetNode - reflection), TypedValue encoding, ordered-list order under DiffWithAtomic.", "5 (C03)", "")
 
+CLAIMED["C17"] = ("Proof over the generated code and the two lookup kernels. (1) Tables: the working tree's generator is run on an enumeration corpus (leaf, typedef and "
+    "union-member enumerations with explicit and negative values, identities derived across several modules; four enum-naming flag combinations; plus the key-type "
+    "corpus, and the repository test schemas in the thorough tier); the generated ΛEnum literal is evaluated by the verifier and, for every generated "
+    "enumeration / identity type E, E.ΛMap() is proved to contain E's table, in which value 0 (UNSET) is not defined, every name is non-empty and free of ':' "
+    "(as are module names) and no two values share a name. (2) Rendering: enumFieldToString is proved, for every GoEnum value of int64 kind and every table, to "
+    "return no output and no error for 0, an error and no output for a value the table does not define (or a type missing from the map), and otherwise exactly "
+    "the table's name, prefixed 'module:' iff requested and the definition names a module. (3) Parsing: castToEnumValue is proved to return a value of the "
+    "(element) type whose table name equals the given string after StripModulePrefix on both sides, and (nil, nil) exactly when no value does (map-range "
+    "invariant); StripModulePrefix is proved equal to its specification through a strings.Split model, and the lemma that for ':'-free names comparison after "
+    "stripping is name equality - with or without a module prefix - is proved (cvc5, string theory), which with (1) makes parse(render(v)) = v. Assumed: the "
+    "interface call v.ΛMap() and the reflective MethodByName(\"ΛMap\").Call reach the generated method of v's type (dynamic dispatch is uninterpreted), "
+    "reflect.Type.Name. Not covered: which values reach these kernels from the marshal/unmarshal walkers, enum members of unions, schema-side enum "
+    "restrictions. One recorded finding (same-named identities from two modules under one base) and one repaired defect (YANG value -1 generated as UNSET).", "5 (C17)", "")
+
 NA = {
     "C01": "RFC7951 JSON round-trip is a relation between two reflection walkers (structJSON/jsonValue vs unmarshalStruct/unmarshalList) over arbitrary generated struct types; no function-level contract within this verifier's reach carries it (no reflect memory model). Scalar kernels are decided under C18/C19 where claimed.",
     "C02": "gNMI notification round-trip lives in the reflection walkers (findUpdatedLeaves, retrieveNode); not expressible as contracts the VC generator can check.",
